@@ -74,6 +74,7 @@ def build(cellname, patname, copies, rnd, noise=0.0, decoys=0, mirror_decoys=0, 
     coords = np.array(coords, dtype=float)
     diam = max([np.linalg.norm(a - b) for a in coords for b in coords] + [0.0])
     elements, positions, planted, poses = [], [], [], []
+    lookalikes = []
     centers = []
     # well separated centres on a coarse fractional grid; optionally shifted to the faces so that copies straddle them
     grid = [(i / 3.0, j / 3.0, k / 3.0) for i in range(3) for j in range(3) for k in range(3)]
@@ -113,6 +114,10 @@ def build(cellname, patname, copies, rnd, noise=0.0, decoys=0, mirror_decoys=0, 
         if kind == 'copy':
             planted.append(tuple(idxs))
             poses.append((rot, centre))
+        else:
+            # a look-alike: whether it must be rejected depends on how far it is from ANY proper rigid image of the pattern (best fit over all
+            # rotations and translations, maximum per-atom deviation) -- only clearly-outside look-alikes are forbidden matches
+            lookalikes.append((tuple(idxs), kind, best_rigid_fit(coords, pts)))
     # decoys: same-element distractors far from every planted atom
     tries = 0
     while decoys > 0 and tries < 500:
@@ -125,7 +130,7 @@ def build(cellname, patname, copies, rnd, noise=0.0, decoys=0, mirror_decoys=0, 
     with quiet():
         s = Atoms(elements=elements, positions=np.array(positions), cell=cell)
         pat = Atoms(elements=list(els), positions=coords)
-    return dict(structure=s, pattern=pat, planted=planted, poses=poses, cell=cell, diam=diam, cellname=cellname, patname=patname)
+    return dict(structure=s, pattern=pat, planted=planted, poses=poses, cell=cell, diam=diam, cellname=cellname, patname=patname, lookalikes=lookalikes)
 
 
 def group_key(t):
